@@ -39,7 +39,7 @@ ASSUMPTIONS = [
     'row dicts always name the last column (shape is inferred from keys)',
 ]
 ANCHORS = ['Table._to_sparse', 'coo_arrays_to_sparse', 'list_list_to_sparse', 'nparray_to_sparse', 'list_nparray_to_sparse', 'list_sparse_to_sparse', 'list_dict_to_sparse', 'dict_to_sparse', 'Table.from_adjacency', 'parse_uc', '_from_uc', 'errcheck']
-REQUIRED = ['form_rows_of_mixed_layout', 'uc_hits_on_seed_reads', 'form_rows_of_mixed_dtype', 'adjacency_ids_starting_with_hash', 'families', 'forms_compared', 'form_dict_unordered',
+REQUIRED = ['malformed_flat_vector', 'form_rows_of_mixed_layout', 'uc_hits_on_seed_reads', 'form_rows_of_mixed_dtype', 'adjacency_ids_starting_with_hash', 'families', 'forms_compared', 'form_dict_unordered',
             'form_triples_with_zeros', 'form_bool', 'form_int',
             'adjacency_cases', 'uc_cases', 'uc_cli_cases',
             'malformed_duplicate_id', 'malformed_id_count',
@@ -324,6 +324,16 @@ def run_malformed(ctx, r, index):
         md[axis] = [{} for _ in range(k + r.choice([1, 2]))]
     elif kind == 'control':
         md[axis] = good
+    if kind == 'control' and n >= 2 and m >= 2 and r.random() < .5:
+        # a matrix flattened into one vector is not a matrix of that many
+        # ids by that many: the vector is one observation (or nothing)
+        kind = 'flat-vector'
+        nm = 'ndarray-1d'
+        data, kw = D.reshape(-1).copy(), {}
+        if r.random() < .5:
+            ids = {'observation': list(samp), 'sample': list(obs)}
+        md = {'observation': None, 'sample': None}
+        ctx.count('malformed_flat_vector')
     desc = {'form': nm, 'kind': kind, 'axis': axis, 'D': D.tolist(),
             'ids': ids, 'md': repr(md)}
     try:
@@ -393,9 +403,11 @@ def run_adjacency(ctx, r, index):
     lines = ['%s\t%s\t%r' % (o, s, float(v)) for o, s, v in recs]
     if header:
         lines = ['#OTU ID\tSampleID\tvalue'] + lines
-    how = r.choice(['list', 'list-nl', 'string', 'handle', 'tuple'])
+    how = r.choice(['list', 'list-nl', 'string', 'handle', 'tuple',
+                    'list-crlf'])
     arg = {'list': lambda: list(lines),
            'list-nl': lambda: [ln + '\n' for ln in lines],
+           'list-crlf': lambda: [ln + '\r\n' for ln in lines],
            'string': lambda: '\n'.join(lines),
            'handle': lambda: io.StringIO('\n'.join(lines) + '\n'),
            'tuple': lambda: tuple(lines)}[how]()
@@ -493,7 +505,7 @@ def run_uc(ctx, r, index):
         return
     text = '\n'.join(lines) + '\n'
     from biom.parse import parse_uc
-    how = r.choice(['handle', 'list', 'cli', 'cli-map'])
+    how = r.choice(['handle', 'list', 'cli', 'cli-map', 'list-crlf'])
     desc = {'uc': lines, 'as': how}
     files = []
     try:
@@ -502,6 +514,8 @@ def run_uc(ctx, r, index):
             t = parse_uc(io.StringIO(text))
         elif how == 'list':
             t = parse_uc([ln + '\n' for ln in lines])
+        elif how == 'list-crlf':
+            t = parse_uc([ln + '\r\n' for ln in lines])
         else:
             up = ctx.path('c17_%d.uc' % index)
             op = ctx.path('c17_%d.biom' % index)
